@@ -221,6 +221,15 @@ def call_builtin(ex, name, args, kwargs, node):
         return call_spec(ex, 'unpk', [ex.val(args[0])], {}, node)
     if name == 'pickle.dumps':
         return call_spec(ex, 'pk', [ex.val(args[0])], {}, node)
+    if name == 'dataclasses.replace' and len(args) == 1 and '**' not in kwargs:
+        # dataclasses.replace(obj, field=value, ...) on a frozen dataclass modelled by value: a copy with the given fields replaced
+        a = ex.val(args[0])
+        if not isinstance(a.ty, TRec): raise Unsupported('dataclasses.replace on %r' % a.ty)
+        vals = dict(a.t)
+        for k, v in kwargs.items():
+            if k not in vals: raise Unsupported('dataclasses.replace: unknown field %s' % k)
+            vals[k] = coerce(ex.val(v), a.ty.fty(k))
+        return V(a.ty, vals)
     if name == 'functools.partial':
         fn = args[0]
         if not isinstance(fn, E.FuncRef): raise Unsupported('functools.partial of a non-function')
